@@ -22,14 +22,18 @@ def run(res, tier, seed, replay):
     vpl.proof_stage(res, LIBS)
     exe = vpl.build_harness("c02")
     drv = vpl.build_driver("C02")
-    if replay and replay.get("replay", {}).get("record"):
-        outs = [(seed, "replay", replay["replay"]["record"] + "\n")]
+    rp = (replay or {}).get("replay", {})
+    if rp.get("record"):
+        outs = [(seed, "replay", rp["record"] + "\n")]
     else:
-        seeds = [seed] if tier == "quick" else [seed, seed + 1000]
-        jobs = [(s, p) for s in seeds for p in PARTS]
+        if rp.get("part"):          # replay of a property failure: rerun the part that produced it
+            jobs = [(int(rp.get("seed", seed)), rp["part"])]
+        else:
+            seeds = [seed] if tier == "quick" else [seed, seed + 1000]
+            jobs = [(s, p) for s in seeds for p in PARTS]
         def one(job):
             s, p = job
-            rc, out, err = vpl.run_harness(exe, ["--tier", tier, "--seed", s, "--only", p], timeout=1500)
+            rc, out, err = vpl.run_harness(exe, ["--tier", tier, "--seed", s, "--only", p], timeout=3000)
             return (s, p, rc, out, err)
         with ThreadPoolExecutor(8) as ex:
             rs = list(ex.map(one, jobs))
@@ -39,15 +43,37 @@ def run(res, tier, seed, replay):
                 res.violation("harness-crash", "harness c02 (part %s) exited with %d: %s" % (p, rc, err[-800:]),
                               dict(kind="harness", cmd="c02 --tier %s --seed %d --only %s" % (tier, s, p), stderr=err[-2000:]))
             outs.append((s, p, out))
-    allprops, allmism = [], []
+    # the model side: chunks of records are recomputed in parallel, bookkeeping is merged afterwards
+    chunks = []
     for s, p, out in outs:
+        lines = out.split("\n")
+        recs = [l for l in lines if l.startswith("REC ")]
+        other = [l for l in lines if not l.startswith("REC ")]
+        step = 400
+        parts_ = [recs[i:i + step] for i in range(0, len(recs), step)] or [[]]
+        for k, ch in enumerate(parts_):
+            chunks.append((s, p, "\n".join(ch + (other if k == 0 else [])) + "\n"))
+    def model(chunk):
+        s, p, out = chunk
+        tmp = vpl.Result(res.pid, tier, seed)
+        mism, props = vpl.correspond(tmp, "C02", out, drv)
+        return (s, p, out, tmp, mism, props)
+    with ThreadPoolExecutor(8) as ex:
+        done = list(ex.map(model, chunks))
+    allprops, allmism = [], []
+    for s, p, out, tmp, mism, props in done:
+        for k in ("evaluations", "distinct_nontrivial", "disagreements"):
+            res.cov[k] += tmp.cov[k]
+        d = res.cov.setdefault("record_kinds", {})
+        for k, v in tmp.cov.get("record_kinds", {}).items():
+            d[k] = d.get(k, 0) + v
+        res.cov["samples"] += tmp.cov["samples"][:2]
         for l in out.split("\n"):
             if l.startswith("NOTE "):
                 res.notes.append("seed %d: %s" % (s, l[5:]))
-        mism, props = vpl.correspond(res, "C02", out, drv)
         allprops += [(s, p, pl) for pl in props]
         allmism += [(s, p, m) for m in mism[:6]]
-    # property failures with a concrete failing input first, one per key first, then the rest
+    # property failures with a concrete failing input first (one per key first), then model/code disagreements
     seen = set()
     allprops.sort(key=lambda t: (t[2].split(" ", 2)[1] in seen) or seen.add(t[2].split(" ", 2)[1]) or False)
     for s, p, pl in allprops:
